@@ -254,6 +254,18 @@ void MEDDLY::inter_mt::_compute(int L, unsigned in,
         }
     }
 
+    if (arg1F->isTerminalNode(A) && arg2F->isTerminalNode(B)) {
+        // TRUE and TRUE, where neither forest is fully reduced;
+        // e.g., identity and identity from two different forests.
+        // Skipped levels mean the same thing for both: result is A.
+        edge_value dummy;
+        dummy.set();
+        MEDDLY_DCASSERT(copy_arg1res);
+        copy_arg1res->compute(L, in, dummy, A, dummy, C);
+        MEDDLY_DCASSERT(dummy.isVoid());
+        return;
+    }
+
     if ((A == B) && (arg1F==arg2F)) {
         // A and A = A
         edge_value dummy;
